@@ -566,7 +566,13 @@ def models(draw, feats=(), max_classes=5, doc_type=None):
             members = draw(st.sampled_from([
                 ['red', 'green'], ['red', 'true'], ['RED', 'Green', 'blue'],
                 ['yes', 'no'], ['a1', 'null']]))
-            classes.append({'name': name, 'kind': 'enum', 'members': members})
+            ec = {'name': name, 'kind': 'enum', 'members': members}
+            if draw(st.integers(0, 2)) == 0:
+                ec['str_mixin'] = True      # class X(str, enum.Enum): still an enum
+            if 'sweeten' in feats and draw(st.integers(0, 2)) == 0:
+                ec['sweeten'] = []          # hooks that only log
+                ec['savorize'] = []
+            classes.append(ec)
             enums.append(name)
             continue
         if kind == 'strlike':
